@@ -206,7 +206,9 @@ func c14Specs(e *Env, r *rand.Rand) []string {
 		add(fmt.Sprintf("%s/%s", randV4(r), m))
 	}
 	// out-of-range prefixes and junk
-	for _, bad := range []string{"33", "129", "999", "-1", "", "x", "24x", "0x18", "1e1", "255.255.255", "255.255.255.256", "2001:db8::"} {
+	for _, bad := range []string{"33", "129", "999", "-1", "", "x", "24x", "0x18", "1e1", "255.255.255", "255.255.255.256", "2001:db8::",
+		// numbers that are a valid length modulo 2^8, 2^16, 2^32, 2^64 (a narrow accumulator wraps)
+		"256", "280", "320", "384", "65536", "65560", "4294967296", "4294967320", "18446744073709551616", "18446744073709551640", "99999999999999999999999999999999"} {
 		add("192.0.2.0/" + bad)
 		add("2001:db8::/" + bad)
 	}
